@@ -56,6 +56,11 @@ def ground_axioms(formulas, rounds=3, pairwise=False):
         logs = _apps(fs + axioms, F_LOG)
         sqrts = _apps(fs + axioms, F_SQRT)
         pows = _apps(fs + axioms, F_POW)
+        for f_, apps in ((F_EXP, exps), (F_LOG, logs)):
+            for e in apps:
+                a = e.arg(0)
+                if _is(a, z3.Z3_OP_ITE):      # lift the function through a conditional argument
+                    new.append(e == z3.If(a.arg(0), f_(a.arg(1)), f_(a.arg(2))))
         for e in exps:
             a = e.arg(0)
             new += [e > 0, F_LOG(e) == a]
